@@ -1,12 +1,13 @@
 #!/bin/bash
 # tools/sweep.sh [ids...] -- every quick check on the unchanged tree, then every seeded change (from /verif/seeded)
 cd /verif
+MODE=${SWEEP_MODE:-all}
 ids="${@:-C01 C02 C03 C04 C05 C06 C07 C08 C09 C10 C11 C12 C13 C14 C15 C16 C17 C18 C19 C20}"
 : > /tmp/sweep.log
-for p in $ids; do
-  ./check $p quick > /tmp/sweep_$p.out 2>&1; echo "BASE $p exit=$? $(grep '^SUMMARY' /tmp/sweep_$p.out | cut -c1-160)" >> /tmp/sweep.log
+[ "$MODE" = seeds ] || for p in $ids; do
+  ./check $p quick ${SWEEP_BASELINE:+--write-baseline} > /tmp/sweep_$p.out 2>&1; echo "BASE $p exit=$? $(grep '^SUMMARY' /tmp/sweep_$p.out | cut -c1-160)" >> /tmp/sweep.log
 done
-for p in $ids; do
+[ "$MODE" = base ] || for p in $ids; do
   for d in seeded/${p}_s*; do
     [ -d "$d" ] || continue
     r=$(python3 tools/seedrun.py $p $d $(basename $d) 2>&1 | head -1)
